@@ -16,12 +16,12 @@ EXTENDS Impartial, IOUtils, TLCExt
 Episodes == JsonDeserialize(IOEnv.TRACE_FILE)
 NEp      == Len(Episodes)
 
-VARIABLES ep, nAcc, nRej, nSkip, stage
-tvars == <<fam, inst, ep, nAcc, nRej, nSkip, stage>>
+VARIABLES ep, nAcc, nRej, nSkip, worstPct, stage
+tvars == <<fam, inst, ep, nAcc, nRej, nSkip, worstPct, stage>>
 
 E == Episodes[ep]
 
-TInit == fam = "trace" /\ inst = <<"none">> /\ ep = 1 /\ nAcc = 0 /\ nRej = 0 /\ nSkip = 0 /\ stage = "run"
+TInit == fam = "trace" /\ inst = <<"none">> /\ ep = 1 /\ nAcc = 0 /\ nRej = 0 /\ nSkip = 0 /\ worstPct = 0 /\ stage = "run"
 
 Admissible(e) == LET G == Gram(e.J) IN IF e.agg = "ConFIG" THEN AdmitUnit(G) ELSE AdmitGram(G)
 Allowed(e)    == LET G == Gram(e.J) IN IF e.agg = "ConFIG" THEN AllowedUnitsU(G) ELSE AllowedUnits(G)
@@ -39,22 +39,30 @@ Failing(e) ==
     ELSE (IF o.orth_units > a THEN "rebalanced_rows_not_orthogonal_of_length_sigma_min"
           ELSE IF o.comb_units > a THEN "not_the_preference_weighted_combination" ELSE "none")
 
+\* largest residual of an accepted episode, in per cent of its allowance (evidence only)
+MaxI(a, b) == IF a > b THEN a ELSE b
+UsedPct(e) == LET o == e.obs  a == Allowed(e)
+                  u == IF e.agg = "IMTLG" THEN MaxI(o.sum_units, o.proj_units)
+                       ELSE IF e.agg = "ConFIG" THEN MaxI(o.cos_units, o.len_units)
+                       ELSE MaxI(o.orth_units, o.comb_units)
+              IN  (100 * u) \div a
+
 TStep ==
     /\ stage = "run" /\ ep <= NEp
     /\ IF ~Admissible(E)
-       THEN nSkip' = nSkip + 1 /\ UNCHANGED <<nAcc, nRej>>
+       THEN nSkip' = nSkip + 1 /\ UNCHANGED <<nAcc, nRej, worstPct>>
        ELSE LET f == Failing(E) IN
-            IF f = "none" THEN nAcc' = nAcc + 1 /\ UNCHANGED <<nRej, nSkip>>
+            IF f = "none" THEN nAcc' = nAcc + 1 /\ worstPct' = MaxI(worstPct, UsedPct(E)) /\ UNCHANGED <<nRej, nSkip>>
             ELSE /\ PrintT(<<"REJECT", ToJson([ep |-> E.ep, clause |-> f, allowed |-> Allowed(E)])>>)
-                 /\ nRej' = nRej + 1 /\ UNCHANGED <<nAcc, nSkip>>
+                 /\ nRej' = nRej + 1 /\ UNCHANGED <<nAcc, nSkip, worstPct>>
     /\ ep' = ep + 1
     /\ UNCHANGED <<fam, inst, stage>>
 
 TDone == /\ stage = "run" /\ ep = NEp + 1
          /\ PrintT(<<"SUMMARY", ToJson([episodes |-> NEp, accepted |-> nAcc, rejected |-> nRej,
-                                         skipped |-> nSkip])>>)
+                                         skipped |-> nSkip, worst_percent_of_allowance |-> worstPct])>>)
          /\ stage' = "end"
-         /\ UNCHANGED <<fam, inst, ep, nAcc, nRej, nSkip>>
+         /\ UNCHANGED <<fam, inst, ep, nAcc, nRej, nSkip, worstPct>>
 
 TNext == TStep \/ TDone
 TraceSpec == TInit /\ [][TNext]_tvars
